@@ -77,7 +77,7 @@ PLAN = {
     },
     "C03": {
         "level": "proof",
-        "contracts": ["contracts.evaluation"],
+        "contracts": ["contracts.evaluation", "contracts.search_loop"],
     },
 }
 
